@@ -37,6 +37,9 @@ pub enum Op {
     Advance { ms: u16 },
     /// connections whose protocols all dropped their handles close (as the real connection task does)
     CloseIdle,
+    /// the second protocol shuts down (its TransportService is dropped); the first one keeps running and must keep seeing a
+    /// well-formed event stream
+    ShutdownSecond,
 }
 
 #[derive(Debug, Clone, Serialize, Deserialize)]
@@ -54,6 +57,7 @@ fn strategy(max_ops: usize) -> impl Strategy<Value = Case> {
         2 => (any::<u16>(), 0u8..2).prop_map(|(pick, service)| Op::InboundSubstream { pick, service }),
         3 => prop_oneof![Just(100u16), Just(2600), Just(4900), Just(5100), Just(6000), Just(11000)].prop_map(|ms| Op::Advance { ms }),
         2 => Just(Op::CloseIdle),
+        1 => Just(Op::ShutdownSecond),
     ];
     prop::collection::vec(op, 1..max_ops).prop_map(|ops| Case { ops })
 }
@@ -68,7 +72,8 @@ struct ServiceView {
 
 struct W {
     m: VerifManager,
-    services: Vec<TransportService>,
+    /// None = the protocol has shut down (its service was dropped)
+    services: Vec<Option<TransportService>>,
     /// one wake flag per service: a service is polled only when it was woken, like a task would be
     gates: Vec<std::sync::Arc<crate::common::WakeGate>>,
     views: Vec<ServiceView>,
@@ -83,6 +88,7 @@ struct W {
     overlap_primary_closed_first: bool,
     open_in_flight_at_close: bool,
     keep_alive_expired: bool,
+    protocol_shut_down: bool,
     step: usize,
 }
 
@@ -114,7 +120,7 @@ impl W {
                 }
             }
             for si in 0..self.services.len() {
-                while let Some(ev) = crate::common::next_if_woken(&mut self.services[si], &self.gates[si]) {
+                while let Some(ev) = self.services[si].as_mut().and_then(|svc| crate::common::next_if_woken(svc, &self.gates[si])) {
                     moved = true;
                     self.on_service_event(si, ev)?;
                 }
@@ -198,7 +204,7 @@ async fn run_async(c: &Case, real_time: bool) -> Result<(bool, bool, bool, bool)
     let mut w = W {
         m,
         gates: (0..services.len()).map(|_| crate::common::WakeGate::new()).collect(),
-        services,
+        services: services.into_iter().map(Some).collect(),
         views: (0..n_services).map(|_| ServiceView { connected: BTreeMap::new(), issued: BTreeMap::new(), answered: BTreeSet::new() }).collect(),
         peers: (0..N_PEERS).map(|i| peer_from_seed(0xC0800 + i as u64)).collect(),
         live: BTreeMap::new(),
@@ -208,6 +214,7 @@ async fn run_async(c: &Case, real_time: bool) -> Result<(bool, bool, bool, bool)
         overlap_primary_closed_first: false,
         open_in_flight_at_close: false,
         keep_alive_expired: false,
+        protocol_shut_down: false,
         step: 0,
     };
     for op in &c.ops {
@@ -243,13 +250,20 @@ async fn run_async(c: &Case, real_time: bool) -> Result<(bool, bool, bool, bool)
                 }
                 w.requests.retain(|(c, _)| *c != id);
                 w.live.remove(&id);
-                w.m.close_connection(id).map_err(|e| CaseFail::new("C08/harness-close-failed", e))?;
+                {
+                    // once a protocol has shut down the report returns an error after having told everybody else
+                    let r = w.m.close_connection(id);
+                    if !w.protocol_shut_down {
+                        r.map_err(|e| CaseFail::new("C08/harness-close-failed", e))?;
+                    }
+                }
                 w.settle()?;
             }
             Op::OpenSubstream { service, peer } => {
                 let si = *service as usize % w.services.len();
                 let p = w.peers[*peer as usize % N_PEERS];
-                let r = w.services[si].open_substream(p);
+                let Some(svc) = w.services[si].as_mut() else { continue };
+                let r = svc.open_substream(p);
                 let considered_connected = w.views[si].connected.get(&p.to_bytes()).cloned().unwrap_or(false);
                 match r {
                     Ok(id) => {
@@ -281,9 +295,19 @@ async fn run_async(c: &Case, real_time: bool) -> Result<(bool, bool, bool, bool)
                 let (conn, sid) = w.requests.remove(pick_idx(*pick, w.requests.len()));
                 if *success {
                     let stream = w.control.open_stream().await.map_err(|e| CaseFail::new("C08/harness-yamux-open-failed", format!("{e:?}")))?;
-                    w.m.answer_open_success(conn, sid, stream).map_err(|e| CaseFail::new("C08/harness-answer-failed", e))?;
+                    {
+                        let r = w.m.answer_open_success(conn, sid, stream);
+                        if !w.protocol_shut_down {
+                            r.map_err(|e| CaseFail::new("C08/harness-answer-failed", e))?;
+                        }
+                    }
                 } else {
-                    w.m.answer_open_failure(conn, sid).map_err(|e| CaseFail::new("C08/harness-answer-failed", e))?;
+                    {
+                        let r = w.m.answer_open_failure(conn, sid);
+                        if !w.protocol_shut_down {
+                            r.map_err(|e| CaseFail::new("C08/harness-answer-failed", e))?;
+                        }
+                    }
                 }
                 w.settle()?;
             }
@@ -307,6 +331,13 @@ async fn run_async(c: &Case, real_time: bool) -> Result<(bool, bool, bool, bool)
                 tokio::task::yield_now().await;
                 w.settle()?;
             }
+            Op::ShutdownSecond => {
+                if w.services.len() > 1 && w.services[1].is_some() {
+                    w.services[1] = None;
+                    w.protocol_shut_down = true;
+                    w.settle()?;
+                }
+            }
             Op::CloseIdle => {
                 for id in w.live.keys().cloned().collect::<Vec<_>>() {
                     let mut idle = false;
@@ -327,7 +358,13 @@ async fn run_async(c: &Case, real_time: bool) -> Result<(bool, bool, bool, bool)
                         w.keep_alive_expired = true;
                         w.requests.retain(|(c, _)| *c != id);
                         w.live.remove(&id);
-                        w.m.close_connection(id).map_err(|e| CaseFail::new("C08/harness-close-failed", e))?;
+                        {
+                    // once a protocol has shut down the report returns an error after having told everybody else
+                    let r = w.m.close_connection(id);
+                    if !w.protocol_shut_down {
+                        r.map_err(|e| CaseFail::new("C08/harness-close-failed", e))?;
+                    }
+                }
                         w.settle()?;
                     }
                 }
@@ -335,6 +372,9 @@ async fn run_async(c: &Case, real_time: bool) -> Result<(bool, bool, bool, bool)
         }
         // reality check: a service that considers a peer connected has a connection to it, and vice versa (after settling)
         for si in 0..w.services.len() {
+            if w.services[si].is_none() {
+                continue;
+            }
             for p in &w.peers {
                 let considered = w.views[si].connected.get(&p.to_bytes()).cloned().unwrap_or(false);
                 let has = w.live.values().any(|q| q == p);
@@ -352,7 +392,7 @@ async fn run_async(c: &Case, real_time: bool) -> Result<(bool, bool, bool, bool)
     }
     t1.abort();
     t2.abort();
-    Ok((w.overlap_primary_closed_first, w.open_in_flight_at_close, w.keep_alive_expired, w.all_ids.len() > 1))
+    Ok((w.overlap_primary_closed_first, w.open_in_flight_at_close || w.protocol_shut_down, w.keep_alive_expired, w.all_ids.len() > 1))
 }
 
 fn run_case_rt(c: &Case) -> CaseResult {
